@@ -1,6 +1,7 @@
 package main
 
 import (
+	"os"
 	"fmt"
 	"go/constant"
 	"go/token"
@@ -342,7 +343,11 @@ func (c *Check) skipGuard(rel, fn, callee string, argIdx int, flags []string) {
 				reach[b] = true
 				if len(b.Instrs) > 0 {
 					if iff, ok := b.Instrs[len(b.Instrs)-1].(*ssa.If); ok {
-						switch condAssume(iff.Cond, force, mv, flag) {
+						d := condAssume(iff.Cond, force, mv, flag)
+						if d == 0 {
+							d = classifierAssume(iff.Cond, force, mv, flag)
+						}
+						switch d {
 						case 1:
 							walk(b.Succs[0])
 							return
@@ -952,4 +957,95 @@ func typeInModule(t types.Type) bool {
 	}
 	named, ok := t.(*types.Named)
 	return ok && named.Obj().Pkg() != nil && inModule(named.Obj().Pkg().Path())
+}
+
+// classifierAssume: the condition compares the result of a classifying helper (a module
+// function that receives the mapping and the force flag and returns a constant per case)
+// with a constant; decided from the constants the helper can return when force is false and
+// the mapping's flag is set.
+func classifierAssume(cond ssa.Value, force ssa.Value, mv ssa.Value, flag string) int {
+	cmp, ok := cond.(*ssa.BinOp)
+	if !ok || (cmp.Op != token.EQL && cmp.Op != token.NEQ) {
+		return 0
+	}
+	var call *ssa.Call
+	var k int64
+	var isK bool
+	if c1, ok := cmp.X.(*ssa.Call); ok {
+		call = c1
+		k, isK = constInt(cmp.Y)
+	} else if c2, ok := cmp.Y.(*ssa.Call); ok {
+		call = c2
+		k, isK = constInt(cmp.X)
+	}
+	if call == nil || !isK {
+		return 0
+	}
+	h := call.Call.StaticCallee()
+	if h == nil || !fnInModule(h) || len(h.Blocks) == 0 || len(h.Params) != len(call.Call.Args) {
+		return 0
+	}
+	var hf, hm ssa.Value
+	for i, a := range call.Call.Args {
+		if a == force {
+			hf = h.Params[i]
+		}
+		if a == mv {
+			hm = h.Params[i]
+		}
+	}
+	if hf == nil || hm == nil {
+		return 0
+	}
+	possible := map[int64]bool{}
+	known := true
+	// (conditions joined by && / || inside a tag-less switch arrive as merges of constants and
+	// sub-conditions: reachUnderEval evaluates those over the live edges)
+	reach, _ := reachUnderEval(h, func(cond ssa.Value) int { return condAssume(cond, hf, hm, flag) })
+	for _, b := range h.Blocks {
+		if !reach[b] {
+			continue
+		}
+		last, ok := b.Instrs[len(b.Instrs)-1].(*ssa.Return)
+		if !ok {
+			continue
+		}
+		if len(last.Results) != 1 {
+			known = false
+			continue
+		}
+		var vals []ssa.Value
+		if ph, isPhi := last.Results[0].(*ssa.Phi); isPhi {
+			for i, e := range ph.Edges {
+				if reach[ph.Block().Preds[i]] {
+					vals = append(vals, e)
+				}
+			}
+		} else {
+			vals = []ssa.Value{last.Results[0]}
+		}
+		for _, v := range vals {
+			if n, ok := constInt(v); ok {
+				possible[n] = true
+			} else {
+				known = false
+			}
+		}
+	}
+	if os.Getenv("DEBUG_CL") != "" {
+		fmt.Println("DEBUG_CL", flag, known, possible, k)
+	}
+	if !known || len(possible) == 0 {
+		return 0
+	}
+	eq := 0
+	if !possible[k] {
+		eq = -1
+	} else if len(possible) == 1 {
+		eq = 1
+	}
+	if cmp.Op == token.NEQ {
+		return -eq
+	}
+	return eq
 }
